@@ -281,7 +281,82 @@ pub fn fuzz_sentence(data: &[u8]) -> Result<(), Failure> {
     Ok(())
 }
 
+/// Generic structured target: the input bytes select the case of the property's OWN strategy (dictionaries,
+/// configurations, histories), which then goes through the property's own oracle, in a binary built with
+/// AddressSanitizer, debug assertions and overflow checks. The bytes seed proptest's ChaCha generator (first 32
+/// bytes, the rest folded in). proptest's pass-through generator, which would let libFuzzer mutate single
+/// draws, is not usable with these strategies: every `prop_oneof!` halves the remaining entropy for its lazy
+/// alternatives, the data is used up after a few dozen draws, and rand's rejection sampling never terminates
+/// on the zeros that follow (observed: the first campaign hung on the empty input). So libFuzzer is the driver
+/// and the sanitizer is the added monitor here; coverage feedback only decides which seeds are kept.
+fn fuzz_prop_with<P: Property>(p: &P, data: &[u8]) -> Result<(), Failure> {
+    use proptest::test_runner::{RngAlgorithm, TestRng};
+    install_panic_hook();
+    let mut seed = [0u8; 32];
+    for (i, b) in data.iter().enumerate() {
+        if i < 32 {
+            seed[i] ^= *b;
+        } else {
+            // fold the rest in, position dependent
+            let k = i % 32;
+            seed[k] = seed[k].rotate_left(3) ^ b.wrapping_add((i / 32) as u8);
+        }
+    }
+    let rng = TestRng::from_seed(RngAlgorithm::ChaCha, &seed);
+    let mut runner = TestRunner::new_with_rng(PtConfig { failure_persistence: None, ..PtConfig::default() }, rng);
+    let strategy = p.strategy(Tier::Quick);
+    let Ok(tree) = strategy.new_tree(&mut runner) else { return Ok(()) };
+    let case = tree.current();
+    let mut ctx = Ctx { dir: scratch_dir(&format!("fuzz-prop-{}", p.id())), strict: false, tier: Tier::Quick };
+    let rep = match guarded(|| p.check(&case, &mut ctx)) {
+        Ok(r) => r,
+        Err(m) => {
+            let mut r = Report::default();
+            r.fail(&format!("harness-panic:{}", panic_site(&m)), m);
+            r
+        }
+    };
+    match rep.failure {
+        None => Ok(()),
+        Some(f) => {
+            let cj = serde_json::to_value(&case).unwrap_or(serde_json::Value::Null);
+            let path = verif_root().join("replays").join(p.id()).join("fuzz-prop-case.json");
+            write_json(&path, &serde_json::json!({"property": p.id(), "clause": f.clause, "detail": f.detail, "case": cj}));
+            Err(f)
+        }
+    }
+}
+
+/// properties whose check is an in-process function of a generated case (C18 and C19 spawn processes)
+pub fn fuzz_prop(id: &str, data: &[u8]) -> Result<(), Failure> {
+    use crate::props::*;
+    match id {
+        "C01" => fuzz_prop_with(&c01::C01, data),
+        "C02" => fuzz_prop_with(&c02::C02, data),
+        "C03" => fuzz_prop_with(&c03::C03, data),
+        "C04" => fuzz_prop_with(&c04::C04, data),
+        "C05" => fuzz_prop_with(&c05::C05, data),
+        "C06" => fuzz_prop_with(&c06::C06, data),
+        "C07" => fuzz_prop_with(&c07::C07, data),
+        "C08" => fuzz_prop_with(&c08::C08, data),
+        "C09" => fuzz_prop_with(&c09::C09, data),
+        "C10" => fuzz_prop_with(&c10::C10, data),
+        "C11" => fuzz_prop_with(&c11::C11, data),
+        "C12" => fuzz_prop_with(&c12::C12, data),
+        "C13" => fuzz_prop_with(&c13::C13, data),
+        "C14" => fuzz_prop_with(&c14::C14, data),
+        "C15" => fuzz_prop_with(&c15::C15, data),
+        "C16" => fuzz_prop_with(&c16::C16, data),
+        "C17" => fuzz_prop_with(&c17::C17, data),
+        "C20" => fuzz_prop_with(&c20::C20, data),
+        _ => Err(Failure { clause: "unknown-property".into(), detail: id.to_string() }),
+    }
+}
+
 pub fn run_target(name: &str, data: &[u8]) -> Result<(), Failure> {
+    if let Some(id) = name.strip_prefix("prop:") {
+        return fuzz_prop(id, data);
+    }
     match name {
         "tokenize" => fuzz_tokenize(data),
         "dic_compile" => fuzz_dic_compile(data),
@@ -294,6 +369,14 @@ pub fn run_target(name: &str, data: &[u8]) -> Result<(), Failure> {
 
 /// which property owns a target
 pub fn target_property(name: &str) -> &'static str {
+    if let Some(id) = name.strip_prefix("prop:") {
+        for k in ["C01", "C02", "C03", "C04", "C05", "C06", "C07", "C08", "C09", "C10", "C11", "C12", "C13", "C14", "C15", "C16", "C17", "C20"] {
+            if k == id {
+                return k;
+            }
+        }
+        return "?";
+    }
     match name {
         "tokenize" => "C03",
         "dic_compile" => "C06",
